@@ -283,6 +283,48 @@ impl Engine for C17 {
                 }
             }
             // ---------------------------------------------------------------- loops
+            3 | 4 if w.chance(1, 8) => {
+                // no loop at all: whatever svgdx repeats internally (retry passes over a chain
+                // of forward references, chained clip paths) is not what loop-limit and
+                // depth-limit measure, so a flat document is never rejected by them
+                let l = 2 + w.below(12) as u32;
+                let extra = 1 + w.below(4) as u32;
+                if w.chance(1, 2) {
+                    let (cfg, prefix) = limit_cfg(&mut w, "loop", l, via_config);
+                    let n = l + 1 + extra;
+                    let mut body = String::new();
+                    for i in 0..n {
+                        body.push_str(&format!("<rect class=\"m\" id=\"a{i}\" xy=\"#a{}|h 1\" wh=\"1\"/>", i + 1));
+                    }
+                    body.push_str(&format!("<rect class=\"m\" id=\"a{n}\" xy=\"0 0\" wh=\"1\"/>"));
+                    Scn {
+                        label: "loop:none-forward-chain".into(),
+                        doc: format!("<svg>{prefix}{body}</svg>"),
+                        cfg,
+                        expect_ok: true,
+                        expect_marks: Some(n as u64 + 1),
+                        expect_text: None,
+                        params: format!("L={l} chain={n} via_config={via_config}"),
+                    }
+                } else {
+                    let (cfg, prefix) = limit_cfg(&mut w, "depth", l.max(4), via_config);
+                    let k = (l.max(4) + extra).min(15);
+                    let mut body = String::from("<clipPath id=\"c0\"><rect xy=\"0 0\" wh=\"50\"/></clipPath>");
+                    for i in 1..=k {
+                        body.push_str(&format!("<clipPath id=\"c{i}\" clip-path=\"url(#c{})\"><rect xy=\"{i} {i}\" wh=\"40\"/></clipPath>", i - 1));
+                    }
+                    body.push_str(&format!("<rect class=\"m\" id=\"z\" xy=\"0 0\" wh=\"60\" clip-path=\"url(#c{k})\"/><rect class=\"m\" xy=\"#z|h 1\" wh=\"2\"/>"));
+                    Scn {
+                        label: "depth:none-clip-chain".into(),
+                        doc: format!("<svg>{prefix}{body}</svg>"),
+                        cfg,
+                        expect_ok: true,
+                        expect_marks: Some(2),
+                        expect_text: None,
+                        params: format!("L={} chain={k} via_config={via_config}", l.max(4)),
+                    }
+                }
+            }
             3 | 4 => {
                 let l = if w.chance(1, 6) { 1000 } else { 2 + w.below(30) as u32 };
                 let delta: i64 = *w.pick(&[-1i64, 0, 1, 3]);
@@ -496,7 +538,7 @@ impl Engine for C17 {
         serde_json::to_value(scn).unwrap()
     }
 
-    fn execute(&self, scenario: &Value, _env: &WorkerEnv) -> RunResult {
+    fn execute(&self, scenario: &Value, env: &WorkerEnv) -> RunResult {
         let mut res = RunResult::default();
         let scn: Scn = match serde_json::from_value(scenario.clone()) {
             Ok(s) => s,
@@ -527,6 +569,48 @@ impl Engine for C17 {
             res.stats.nontrivial = p.attempts > 1;
         }
         let family = scn.label.clone();
+        // the command, with the same limits given the way a user gives them (a flag only where
+        // the value is not the default): it must reach the library's verdict
+        if rng::hash_str(&scn.params) % 4 == 0 && matches!(out, Outcome::Ok(_) | Outcome::Err(_)) {
+            let dir = env.scratch.join("c17");
+            let _ = std::fs::create_dir_all(&dir);
+            let cr = run_child(
+                env,
+                "svgdx",
+                ChildSpec {
+                    args: scn.cfg.to_cli_args(),
+                    stdin: Some(scn.doc.as_bytes()),
+                    cwd: &dir,
+                    entropy: Some(1),
+                    fake_time_ns: Some(1_700_000_000_000_000_000),
+                    env: vec![],
+                    env_remove: vec![],
+                    timeout: std::time::Duration::from_secs(60),
+                    stdout_to: None,
+                },
+            );
+            res.stats.evaluations += 1;
+            res.stats.probe("verdict_repeated_by_the_command");
+            if let Ok(c) = cr {
+                let cmd_ok = c.code == Some(0);
+                if !c.timed_out && c.signal.is_none() && cmd_ok != out.is_ok() {
+                    res.violation(
+                        "limits/command-verdict-differs",
+                        &format!("c17:{family}:command-{}", if cmd_ok { "accepts" } else { "rejects" }),
+                        format!(
+                            "the svgdx command (arguments {:?}) {} a document the library {}; params {}; document: {}",
+                            scn.cfg.to_cli_args(),
+                            if cmd_ok { "accepts" } else { "rejects" },
+                            if out.is_ok() { "accepts" } else { "rejects" },
+                            scn.params,
+                            shorten(&scn.doc, 500)
+                        ),
+                    );
+                } else if c.signal.is_some() || c.code == Some(101) {
+                    res.violation("totality/command-crash", &format!("c17:{family}:command-crash"), format!("the svgdx command died: code {:?} signal {:?}; params {}", c.code, c.signal, scn.params));
+                }
+            }
+        }
         match (&out, scn.expect_ok) {
             (Outcome::Panic(p), _) => {
                 res.violation("totality/panic", &format!("c17:{family}:panic"), format!("{p}; params {}", scn.params));
